@@ -54,6 +54,10 @@ enum Dr {
     Reader,
     Bare(rustdds::with_key::BareDataReaderStream<VSample>),
     Full(rustdds::with_key::DataReaderStream<VSample>),
+    /// a DataReader of an un-keyed topic (a wrapper around the keyed one that never shows a dispose) and its two streams
+    NkReader(rustdds::no_key::DataReader<VSample>),
+    NkBare(rustdds::no_key::BareDataReaderStream<VSample>),
+    NkFull(rustdds::no_key::DataReaderStream<VSample>),
 }
 
 struct CExec {
@@ -158,6 +162,9 @@ impl CExec {
                 key_flag: false,
             },
             "UD" => Sub::Data { reader: self.reader_eid, writer: writer_eid(w), sn, inline_qos: None, payload: Some(vec![0, 1, 0, 0, 9, 9]), key_flag: false },
+            // DATA with the key flag and an empty key, as a writer that treats the topic as keyed sends when it disposes:
+            // a change the reader of an un-keyed topic cannot turn into a sample
+            "KD" => Sub::Data { reader: self.reader_eid, writer: writer_eid(w), sn, inline_qos: None, payload: Some(vec![0, 1, 0, 0]), key_flag: true },
             _ => {
                 let mut p = wire::vsample_payload(k, id as u32, &[1, 2, 3]);
                 p[0] = 0x77;
@@ -211,7 +218,8 @@ impl CExec {
         match &mut self.dr {
             Dr::Bare(s) => match Pin::new(s).poll_next(&mut cx) {
                 Poll::Pending => ("pending".into(), vec![]),
-                Poll::Ready(None) => ("ok".into(), vec![]),
+                // the stream of a living reader reported its end: an ordinary consumer stops here for good
+                Poll::Ready(None) => ("ended".into(), vec![]),
                 Poll::Ready(Some(Err(_))) => ("err".into(), vec![]),
                 Poll::Ready(Some(Ok(smp))) => {
                     let r = match &smp {
@@ -223,10 +231,51 @@ impl CExec {
             },
             Dr::Full(s) => match Pin::new(s).poll_next(&mut cx) {
                 Poll::Pending => ("pending".into(), vec![]),
-                Poll::Ready(None) => ("ok".into(), vec![]),
+                Poll::Ready(None) => ("ended".into(), vec![]),
                 Poll::Ready(Some(Err(_))) => ("err".into(), vec![]),
                 Poll::Ready(Some(Ok(ds))) => ("ok".into(), self.full_vec(&[ds])),
             },
+            Dr::NkBare(s) => match Pin::new(s).poll_next(&mut cx) {
+                Poll::Pending => ("pending".into(), vec![]),
+                Poll::Ready(None) => ("ended".into(), vec![]),
+                Poll::Ready(Some(Err(_))) => ("err".into(), vec![]),
+                Poll::Ready(Some(Ok(v))) => ("ok".into(), vec![self.bare_rec(Sample::Value(&v))]),
+            },
+            Dr::NkFull(s) => match Pin::new(s).poll_next(&mut cx) {
+                Poll::Pending => ("pending".into(), vec![]),
+                Poll::Ready(None) => ("ended".into(), vec![]),
+                Poll::Ready(Some(Err(_))) => ("err".into(), vec![]),
+                Poll::Ready(Some(Ok(ds))) => ("ok".into(), vec![self.bare_rec(Sample::Value(ds.value()))]),
+            },
+            Dr::NkReader(_) => {
+                let rc = if cond == "any" { ReadCondition::any() } else { ReadCondition::not_read() };
+                // (the reader is taken out for the call: bare_rec needs the rest of self)
+                let Dr::NkReader(mut dr) = std::mem::replace(&mut self.dr, Dr::Reader) else { unreachable!() };
+                let r = match form {
+                    "nk_take" => match dr.take(max, rc) {
+                        Err(_) => ("err".to_string(), vec![]),
+                        Ok(v) => ("ok".to_string(), v.iter().map(|ds| self.bare_rec(Sample::Value(ds.value()))).collect()),
+                    },
+                    "nk_read" => match dr.read(max, rc) {
+                        Err(_) => ("err".to_string(), vec![]),
+                        Ok(v) => ("ok".to_string(), v.iter().map(|ds| self.bare_rec(Sample::Value(*ds.value()))).collect()),
+                    },
+                    "nk_take_next" => match dr.take_next_sample() {
+                        Err(_) => ("err".to_string(), vec![]),
+                        Ok(None) => ("ok".to_string(), vec![]),
+                        Ok(Some(ds)) => ("ok".to_string(), vec![self.bare_rec(Sample::Value(ds.value()))]),
+                    },
+                    _ => match dr.into_iterator() {
+                        Err(_) => ("err".to_string(), vec![]),
+                        Ok(it) => {
+                            let vals: Vec<VSample> = it.take(max).collect();
+                            ("ok".to_string(), vals.iter().map(|v| self.bare_rec(Sample::Value(v))).collect())
+                        }
+                    },
+                };
+                self.dr = Dr::NkReader(dr);
+                r
+            }
             Dr::Reader => {
                 if form == "simple" {
                     let r = self.rig.slots[0].dr().verif_simple().try_take_one();
@@ -325,9 +374,9 @@ impl CExec {
     fn do_call(&mut self, form: &str, max: usize, cond: &str, inst: i64, dir: &str, out: &mut Vec<Value>) -> (String, usize) {
         // effective parameters of the forms that fix them
         let (max, cond) = match form {
-            "take_next" | "read_next" | "stream_bare" | "stream" => (1, "notread"),
+            "take_next" | "read_next" | "stream_bare" | "stream" | "nk_stream" | "nk_stream_bare" | "nk_take_next" => (1, "notread"),
             "simple" => (1, "any"),
-            "iter" | "into_iter" => (1_000_000, "notread"),
+            "iter" | "into_iter" | "nk_into_iter" => (1_000_000, "notread"),
             _ => (max, cond),
         };
         self.release_held(None);
@@ -340,10 +389,10 @@ impl CExec {
         if m.panic.is_some() {
             res = ("died".to_string(), vec![]);
         }
-        let removing = matches!(form, "take" | "take_next" | "take_inst" | "into_iter" | "stream_bare" | "stream" | "simple");
-        let marking = matches!(form, "read" | "read_next" | "read_inst" | "iter");
+        let removing = matches!(form, "take" | "take_next" | "take_inst" | "into_iter" | "stream_bare" | "stream" | "simple" | "nk_take" | "nk_take_next" | "nk_into_iter" | "nk_stream" | "nk_stream_bare");
+        let marking = matches!(form, "read" | "read_next" | "read_inst" | "iter" | "nk_read");
         let full = self.info_checks && matches!(form, "take" | "take_next" | "take_inst" | "read" | "read_next" | "read_inst" | "stream");
-        let viewing = form != "simple";
+        let viewing = form != "simple" && !form.starts_with("nk_");
         let scope = if form.ends_with("_inst") { dir } else { "all" };
         let n = res.1.len();
         out.push(json!({"ev":"Call","form":form,"max":max,"cond":cond,"scope":scope,"inst":inst,"res":res.0,"out":res.1,
@@ -357,13 +406,25 @@ pub fn run_one(run_no: usize, spec: &CRunSpec, out: &mut Vec<Value>) -> Vec<Vec<
     for w in 1..=2u8 {
         rig.match_writer(0, writer_guid(w), spec.reliable, 23_000 + w as u16);
     }
-    let reader_eid = rig.slots[0].entity_id;
+    let mut reader_eid = rig.slots[0].entity_id;
+    let mut nk = None;
+    if spec.mode.starts_with("nk_") {
+        let (dr, eid) = rig.add_no_key_reader(spec.reliable);
+        for w in 1..=2u8 {
+            rig.match_writer_to(eid, writer_guid(w), spec.reliable, 23_100 + w as u16);
+        }
+        reader_eid = eid;
+        nk = Some(dr);
+    }
     let dr = match spec.mode.as_str() {
+        "nk_dr" => Dr::NkReader(nk.take().unwrap()),
+        "nk_bare_stream" => Dr::NkBare(nk.take().unwrap().async_bare_sample_stream()),
+        "nk_stream" => Dr::NkFull(nk.take().unwrap().async_sample_stream()),
         "bare_stream" => Dr::Bare(rig.slots[0].detach_datareader().async_bare_sample_stream()),
         "stream" => Dr::Full(rig.slots[0].detach_datareader().async_sample_stream()),
         _ => Dr::Reader,
     };
-    let info_checks = !spec.acts.iter().any(|a| matches!(a, CAct::Arrive { kind, .. } if kind == "UD" || kind == "UR" || kind == "DHU"));
+    let info_checks = !spec.mode.starts_with("nk_") && !spec.acts.iter().any(|a| matches!(a, CAct::Arrive { kind, .. } if kind == "UD" || kind == "UR" || kind == "DHU"));
     let mut ex = CExec { rig, dr, reader_eid, next_sn: HashMap::new(), ids: HashMap::new(), arrivals: vec![], pending: vec![], rx_of_tag: HashMap::new(), next_rx: 0, tag2id: HashMap::new(), next_tag: 0, max_tag_emitted: 0, reliable: spec.reliable, held: HashMap::new(), info_checks };
     out.push(json!({"ev":"Reset","run":run_no,"depth":spec.depth,"reliable":spec.reliable,"mode":spec.mode}));
     for a in &spec.acts {
@@ -378,13 +439,16 @@ pub fn run_one(run_no: usize, spec: &CRunSpec, out: &mut Vec<Value>) -> Vec<Vec<
                 let inst_form = form.ends_with("_inst");
                 // instance forms see one instance per call: go round all instances
                 let keys = [1i64, 2, 3, 9];
-                while empties < (if inst_form { 8 } else { 2 }) && n < 120 {
+                // an un-keyed reader counts a dispose it cannot show against `max`: every skipped change may cost one call
+                // that returns nothing ("skipped exactly once"), so nothing is there only after that many empty calls in a row
+                let skipped = if form.starts_with("nk_") { spec.acts.iter().filter(|a| matches!(a, CAct::Arrive { kind, .. } if kind != "V")).count() } else { 0 };
+                while empties < (if inst_form { 8 } else { 2 + skipped }) && n < 120 + skipped {
                     let inst = if inst_form { keys[n % keys.len()] } else { -1 };
                     let (res, cnt) = ex.do_call(form, 1000, "notread", inst, "this", out);
                     if res == "died" {
                         break;
                     }
-                    if (res == "ok" || res == "pending") && cnt == 0 {
+                    if (res == "ok" || res == "pending" || res == "ended") && cnt == 0 {
                         empties += 1;
                     } else {
                         empties = 0;
@@ -404,6 +468,9 @@ fn forms_of(mode: &str) -> Vec<&'static str> {
         "bare_stream" => vec!["stream_bare"],
         "stream" => vec!["stream"],
         "simple" => vec!["simple"],
+        "nk_bare_stream" => vec!["nk_stream_bare"],
+        "nk_stream" => vec!["nk_stream"],
+        "nk_dr" => vec!["nk_take", "nk_read", "nk_take_next", "nk_into_iter"],
         _ => vec!["take", "read", "take_next", "read_next", "iter", "into_iter", "take_inst", "read_inst"],
     }
 }
@@ -451,8 +518,11 @@ pub fn random_c08(rng: &mut StdRng, n_events: usize) -> CRunSpec {
 
 /// C09: unintelligible changes of every kind at random positions, one form per run, then drain
 pub fn random_c09(rng: &mut StdRng, n_events: usize, k: usize) -> CRunSpec {
-    let modes = ["dr", "dr", "dr", "dr", "dr", "dr", "dr", "dr", "stream", "bare_stream", "simple"];
+    let modes = ["dr", "dr", "dr", "dr", "dr", "dr", "dr", "dr", "stream", "bare_stream", "simple", "nk_dr", "nk_dr", "nk_stream", "nk_bare_stream"];
     let mode = modes[k % modes.len()];
+    if mode.starts_with("nk_") {
+        return random_c09_nk(rng, n_events, k, mode);
+    }
     let forms = forms_of(mode);
     let form = forms[(k / modes.len()) % forms.len()];
     let reliable = (k / 3) % 4 != 0;
@@ -490,6 +560,24 @@ pub fn random_c09(rng: &mut StdRng, n_events: usize, k: usize) -> CRunSpec {
     }
     acts.push(CAct::Drain { form: form.into() });
     CRunSpec { reliable, depth: 0, mode: mode.into(), acts }
+}
+
+/// C09 on an un-keyed topic: values, key-only DATA (a dispose the un-keyed reader cannot show) and undecodable payloads
+fn random_c09_nk(rng: &mut StdRng, n_events: usize, k: usize, mode: &str) -> CRunSpec {
+    let forms = forms_of(mode);
+    let form = forms[(k / 15) % forms.len()];
+    let mut acts = vec![];
+    for _ in 0..n_events {
+        let r = rng.gen_range(0..100);
+        if r < 70 {
+            let kind = if r < 40 { "V" } else if r < 58 { "KD" } else { ["UD", "UR"][rng.gen_range(0..2)] };
+            acts.push(CAct::Arrive { w: rng.gen_range(1..=2u8), k: 1, kind: kind.into(), hold: rng.gen_bool(0.1) });
+        } else {
+            acts.push(CAct::Call { form: form.into(), max: [1, 1000][rng.gen_range(0..2)], cond: "notread".into(), inst: -1, dir: "this".into() });
+        }
+    }
+    acts.push(CAct::Drain { form: form.into() });
+    CRunSpec { reliable: (k / 3) % 4 != 0, depth: 0, mode: mode.into(), acts }
 }
 
 pub fn main(mode: &str, opt: &HashMap<String, String>) -> i32 {
